@@ -77,6 +77,46 @@ def direct_verbatim(line: str, real_out: str):
     return True
 
 
+def every_path(ck, rng) -> int:
+    """"on every rendering path": the same trusted markup through Tag / TagList / HTMLDocument rendering, through a
+    dependency's head hoisted by HTMLDocument, and through HTMLTextDocument's placeholder substitution"""
+    from htmltools import HTML, HTMLDependency, HTMLDocument, HTMLTextDocument, Tag, TagList
+    import adapters
+    pool = ['<b>x</b>', 'a\\n"b"', "\\d+ \\1 \\g<0>", "back\\\\slash", "<script>window.sep = \"\\n\";</script>", "&amp; &lt;", "é\u2028", "</div>",
+            "<style>q:before{content:\"\\201C\"}</style>", "\\", "$1 \\0", gen.alias_string(rng, 48), gen.alias_string(rng, 100)]
+    n = 0
+    for s in pool + [gen.rand_text(rng, 12) + "\\" + gen.rand_text(rng, 4) for _ in range(ck.budget(30, 400))]:
+        dep_h = HTMLDependency("d", "1.0", head=HTML(s))
+        dep_s = HTMLDependency("e", "1.0", head=s)          # a str head is documented to be taken as HTML
+        dep_t = HTMLDependency("f", "1.0", head=TagList(Tag("script", s), Tag("style", s, "x")))
+        robj = adapters.ReprObj(s)
+        paths = {
+            "Tag.get_html_string": lambda: Tag("div", HTML(s), Tag("p", robj)).get_html_string(),
+            "Tag.render": lambda: Tag("div", "t", HTML(s)).render()["html"],
+            "str(TagList)": lambda: str(TagList(HTML(s), "t", robj)),
+            "HTMLDocument body": lambda: HTMLDocument(Tag("div", HTML(s)), Tag("script", s)).render()["html"],
+            "HTMLDocument head (HTML head)": lambda: HTMLDocument(Tag("div", dep_h)).render()["html"],
+            "HTMLDocument head (str head)": lambda: HTMLDocument(Tag("div", dep_s)).render()["html"],
+            "HTMLDocument head (script/style text)": lambda: HTMLDocument(Tag("div", dep_t)).render()["html"],
+            "HTMLTextDocument (HTML head)": lambda: HTMLTextDocument("<html><head>PH</head><body>PH</body></html>", [dep_h], "PH").render()["html"],
+            "HTMLTextDocument (str head)": lambda: HTMLTextDocument("<head>PH</head>", [dep_s], "PH").render()["html"],
+            "HTMLTextDocument (script/style text)": lambda: HTMLTextDocument("<head>PH</head>", [dep_t], "PH").render()["html"],
+        }
+        for name, f in paths.items():
+            n += 1
+            ck.holds_checked += 1
+            try:
+                out = f()
+            except Exception as e:  # noqa: BLE001
+                ck.py_violation(f"path {name} {s!r}", f"raised {type(e).__name__}: {e}", f"rendering trusted markup {s!r} through {name} raised {type(e).__name__}: {e}",
+                                py=f"content {s!r} via {name}")
+                continue
+            if s not in out:
+                ck.py_violation(f"path {name} {s!r}", out[:300], f"trusted markup {s!r} does not appear byte for byte in the output of {name}",
+                                py=f"content {s!r} via {name}")
+    return n
+
+
 def run(tier: str) -> int:
     ck = core.Check(PID, tier, PROP_FILES)
     ck.prepare()
@@ -89,7 +129,7 @@ def run(tier: str) -> int:
     n_e = 0
     for n in range(1, maxn + 1):
         for e in exprs(leaves if n < 5 else leaves[:3], n):
-            for mode in ("+", "+="):
+            for mode in ("+", "+=", "+=alias"):
                 lines.append(f"hexpr {mode} {enc(e)}")
             n_e += 1
     ck.exhaustive_scopes.append({"scope": f"all expressions with <= {maxn} operands over {{str '&', HTML '<b>', str 'a', other '<7>'}} x all groupings x {{+, +=}}",
@@ -106,7 +146,7 @@ def run(tier: str) -> int:
                 return ("L", kind, s)
             j = rng.randint(1, k - 1)
             return ("A", build(j), build(k - j))
-        lines.append(f"hexpr {rng.choice(['+', '+='])} {enc(build(n))}")
+        lines.append(f"hexpr {rng.choice(['+', '+=', '+=alias'])} {enc(build(n))}")
     impl = core.impl_many(lines)
     for l, im in zip(lines, impl):
         ck.add(l, im, nontrivial=(" h " in l and (" p " in l or " o " in l)), tag="hexpr")
@@ -137,7 +177,9 @@ def run(tier: str) -> int:
         cases.append(("tag", t, rng.choice([0, 1]), "\n"))
     ck.exhaustive_scopes.append({"scope": "aliasing stream: one string as HTML(), text, _repr_html_ and attribute values in one tree, lengths " + str(gen.ALIAS_LENGTHS), "exhaustive": False})
     subst.check_cases(ck, cases, {"r", "h"}, "trusted markup must be emitted byte for byte", direct=direct_verbatim)
-    ck.extra_cov["extra_evaluations"] = len(cases)
+    n_paths = every_path(ck, rng)
+    ck.extra_cov["extra_evaluations"] = len(cases) + n_paths
+    ck.extra_cov["rendering_path_cases"] = n_paths
     ck.extra_cov["tree_cases"] = len(cases)
     ck.distinct_nontrivial += len({repr(c) for c in cases})
     return ck.finish()
